@@ -17,11 +17,24 @@ mkdir -p unittest/seeded_demo && cp $OUT/demo_test.go unittest/seeded_demo/demo_
 go test -vet=off -count=1 ./unittest/seeded_demo/ > /tmp/mut/demo_with_$SID.log 2>&1; echo "CONFIRM demo with change: exit $? (want !=0)"
 git apply -R $OUT/patch.diff
 go test -vet=off -count=1 ./unittest/seeded_demo/ > /tmp/mut/demo_without_$SID.log 2>&1; echo "CONFIRM demo without change: exit $? (want 0)"
-cd /; git -C /repo worktree remove --force $W
-# run the checks against /repo with the change applied
-git -C /repo apply $OUT/patch.diff || exit 2
+rm -rf unittest/seeded_demo
+# run the checks against the tree with the change applied.  With APPLY_TO_REPO=1 the change is applied to /repo itself
+# (git -C /repo apply ... / checkout), otherwise the scratch worktree is used through VERIF_REPO so that long-running
+# background checks on /repo are not disturbed.
+if [ "${APPLY_TO_REPO:-0}" = 1 ]; then
+  cd /; git -C /repo worktree remove --force $W
+  git -C /repo apply $OUT/patch.diff || exit 2
+  TARGET=/repo
+else
+  git apply $OUT/patch.diff
+  TARGET=$W
+fi
 for p in "$@"; do
-  (cd /verif && python3 check.py $p --tier quick > /tmp/mut/check_${SID}_$p.log 2>&1; echo "CHECK $p exit $?: $(egrep '^VIOLATION|^OK|^INFRA|^DRIFT:' /tmp/mut/check_${SID}_$p.log | head -2 | tr '\n' ' ')")
+  (cd /verif && VERIF_REPO=$TARGET python3 check.py $p --tier quick > /tmp/mut/check_${SID}_$p.log 2>&1; echo "CHECK $p exit $?: $(egrep '^VIOLATION|^OK|^INFRA|^DRIFT:' /tmp/mut/check_${SID}_$p.log | head -2 | tr '\n' ' ')")
 done
-git -C /repo checkout -- .
-git -C /repo status --short | head -3
+if [ "${APPLY_TO_REPO:-0}" = 1 ]; then
+  git -C /repo checkout -- .
+  git -C /repo status --short | head -3
+else
+  cd /; git -C /repo worktree remove --force $W
+fi
